@@ -180,6 +180,14 @@ def scan_module(prog, m):
                         out.append(("E4", b.lineno, n.name, f"class-level {n.name}.{name} = {ast.unparse(val)[:60]}",
                                     f"class-level mutable object `{n.name}.{name}` is shared by all instances"))
         if isinstance(n, (ast.FunctionDef, ast.AsyncFunctionDef)):
+            memo = ir.memoised(n)
+            if memo in ("lru_cache", "functools.lru_cache", "cache", "functools.cache"):
+                # a process-wide memo: objects built for one explainer / wrapper are handed to the next one
+                counts["E4"] += 1
+                out.append(("E4", n.lineno, n.name, f"@{memo} on {n.name}",
+                            f"`{n.name}` is memoised for the life of the process: what it returns (and any state that object "
+                            f"accumulates) is shared by every caller that passes equal arguments, so results depend on what "
+                            f"was created or used before"))
             for d in list(n.args.defaults) + [x for x in n.args.kw_defaults if x is not None]:
                 counts["E4"] += 1 if mutable(d) else 0
                 if mutable(d):
@@ -229,7 +237,19 @@ def _seeds(run, prog):
             if ctx.inl or not isinstance(ev, ir.Call) or ev.method is not None or ev.recv is not None:
                 continue
             d = ev.callee
-            if "." not in d or d.startswith(("self.", "local:", "ixai.", "?")) or not d.rsplit(".", 1)[1][:1].isupper():
+            if "." not in d or d.startswith(("self.", "local:", "ixai.", "?")):
+                continue
+            if not d.rsplit(".", 1)[1][:1].isupper():
+                # Class.alternative_constructor(...) of a third-party class whose instances own a generator
+                owner = d.rsplit(".", 1)[0]
+                if "." in owner and owner.rsplit(".", 1)[1][:1].isupper() and _takes_seed(owner) and \
+                        _takes_seed(owner) not in dict(ev.kwargs):
+                    n += 1
+                    fq = f"{c.name + '.' if c else ''}{name}"
+                    run.fail("E3", f"{fq}:{d.rsplit('.', 2)[-2]}.{d.rsplit('.', 1)[1]}", f"{s.path}:{ev.line}", fq,
+                             f"{d.rsplit('.', 2)[-2]}.{d.rsplit('.', 1)[1]}(...) without {_takes_seed(owner)}",
+                             f"{d} builds a {owner} without `{_takes_seed(owner)}=`: the object draws from a private generator "
+                             f"seeded from OS entropy, so replays under identical global seeds differ")
                 continue
             sp = _takes_seed(d)
             if sp is None:
